@@ -132,7 +132,7 @@ class Sim:
     def _switch_to(self, cur, nxt, frame, kind, do_gc=False):
         where = self._where(frame) if frame is not None else kind
         self.record.append([cur.idx if cur else -1, cur.steps if cur else 0, nxt.idx, 1 if do_gc else 0, kind, where])
-        if do_gc:
+        if do_gc and self.probes["gc_injected"] < 40:
             self.probes["gc_injected"] += 1
             gc.collect()
         if nxt is cur:
@@ -276,7 +276,8 @@ class Sim:
                 r = self.runnable()
                 if len(r) > 1 or (r and r[0] is not cur):
                     nxt = r[self.rng.randrange(len(r))]
-                    do_gc = bool(self.gc_rate) and self.rng.random() < self.gc_rate
+                    # at most 40 collections per run: with gaps of a few events an uncapped rate made runs arbitrarily slow
+                    do_gc = bool(self.gc_rate) and self.rng.random() < self.gc_rate and self.probes["gc_injected"] < 40
                     if nxt is not cur or do_gc:
                         self._switch_to(cur, nxt, frame, "event", do_gc)
         if self.step > self.budget:
